@@ -330,3 +330,17 @@ def check(ctx):
     ctx.notes.append("not decided: equality of floats is inherited from the components")
     ctx.assumptions += ["std iterator adaptors behave as documented (iter/iter_mut front to back; min_by/max_by "
                         "return the minimum/maximum under the comparator; reduce folds left to right)"]
+
+
+CTL = "witness_controls::merged::CtlMerged"
+
+
+def controls(ctx, F):
+    check_loop_method(ctx, F, "R1", "update", mutable=False, adt=CTL)
+    check_loop_method(ctx, F, "R2", "start_with", mutable=True, adt=CTL)
+    check_fold(ctx, F, "R3", "delay", "min_by", adt=CTL)
+    check_fold(ctx, F, "R3", "duration", "max_by", adt=CTL)
+    return [("R1", "traversal-not-ordered", "merged update that iterates in reverse"),
+            ("R2", "traversal-not-ordered", "merged start_with that reaches only the first component"),
+            ("R3", "fold-kind-wrong", "merged delay folded with a maximum"),
+            ("R3", "comparator-not-natural", "merged duration folded with a reversed comparator")]
